@@ -16,6 +16,7 @@ from symx import core, shims
 from symx.runner import Job
 from oracle import paint_semantics as ps
 from oracle import svg_semantics as svs
+from oracle import css_color
 from harness import reuse_common as RC
 from harness import C16_radial as RS
 
@@ -41,6 +42,7 @@ SOURCES = {
     '<g opacity="0.5"><path d="M5,5 L40,5 L40,40 Z" fill="#FF0000"/><path d="M10,10 L50,10 L50,50 Z" fill="#00FF00" opacity="0.25"/></g>'
     '<path d="M2,2 L60,2 L60,60 Z" fill="#0000FF"/></svg>',
     "fill with its own alpha channel + shape opacity": f'<svg {NS} viewBox="0 0 32 32"><defs/><path d="M1,1 L30,1 L30,30 Z" fill="#FF000080" opacity="0.5"/><path d="M2,2 L20,2 L20,20 Z" fill="#0F08"/></svg>',
+    "palette variable whose default has an alpha channel + shape opacity": f'<svg {NS} viewBox="0 0 32 32"><defs/><path d="M1,1 L30,1 L30,30 Z" fill="var(--color1, #FF000080)" opacity="0.5"/><path d="M2,2 L20,2 L20,20 Z" fill="var(--color0, #0F08)"/><path d="M3,3 L9,3 L9,9 Z" fill="var(--color3, blue)" opacity="0.25"/></svg>',
     "currentColor and palette variables": f'<svg {NS} viewBox="0 0 32 32"><defs/><path d="M1,1 L30,1 L30,30 Z" fill="currentColor" opacity="0.5"/><path d="M2,2 L20,2 L20,20 Z" fill="var(--color2, #ABCDEF)"/></svg>',
 }
 
@@ -84,14 +86,16 @@ def source_leaves(svg_text):
 
 
 def solid_alpha(fill: str, opacity: float) -> float:
-    """alpha of a solid fill = the colour's own alpha channel (#RRGGBBAA / #RGBA) x shape opacity."""
-    own = 1.0
-    f = fill.strip()
-    if f.startswith("#") and len(f) == 9:
-        own = int(f[7:9], 16) / 255
-    elif f.startswith("#") and len(f) == 5:
-        own = int(f[4] * 2, 16) / 255
-    return own * opacity
+    """alpha of a solid fill = the colour's own alpha channel (#RRGGBBAA / #RGBA, also inside var()) x shape opacity."""
+    return float(css_color.parse(fill).alpha) * opacity
+
+
+def same_solid(color, fill: str) -> bool:
+    """rgb / palette index / currentColor of a nanoemoji Color against the oracle's reading of the source string."""
+    c = css_color.parse(fill)
+    if c.current:
+        return color.is_current_color() and color.palette_index is None
+    return tuple(color[:3]) == c.rgb and color.palette_index == c.palette_index
 
 
 def paint_leaves(layers):
@@ -145,12 +149,11 @@ def replay_source(inp):
         if f[0] != w["fill"][0]:
             return {"fill kind": [f[0], w["fill"][0]]}
         if f[0] == "solid":
-            c = Color.fromstring(w["fill"][1])
-            if f[1].opaque() != c.opaque() or abs(f[1].alpha - solid_alpha(w["fill"][1], w["opacity"])) > 1e-12:
+            if not same_solid(f[1], w["fill"][1]) or abs(f[1].alpha - solid_alpha(w["fill"][1], w["opacity"])) > 1e-12:
                 return {"solid": [repr(f[1]), w["fill"][1], "shape opacity", w["opacity"], "expected alpha", solid_alpha(w["fill"][1], w["opacity"])]}
             continue
         for st, (off, col, sop) in zip(f[-2], w["stops"]):
-            if abs(st.stopOffset - off) > 1e-9 or abs(st.color.alpha - Color.fromstring(col).alpha * sop * w["opacity"]) > 1e-9 or st.color.opaque() != Color.fromstring(col).opaque():
+            if abs(st.stopOffset - off) > 1e-9 or abs(st.color.alpha - float(css_color.parse(col).alpha) * sop * w["opacity"]) > 1e-9 or not same_solid(st.color, col):
                 return {"stop": [repr(st), off, col, sop]}
         if f[-1].name != w["spread"]:
             return {"extend": [f[-1].name, w["spread"]]}
@@ -248,12 +251,12 @@ def job_source(jc):
                     structural = False
                     continue
                 if f[0] == "solid":
-                    structural = structural and f[1].opaque() == Color.fromstring(w["fill"][1]).opaque() and abs(f[1].alpha - solid_alpha(w["fill"][1], w["opacity"])) < 1e-12
+                    structural = structural and same_solid(f[1], w["fill"][1]) and abs(f[1].alpha - solid_alpha(w["fill"][1], w["opacity"])) < 1e-12
                     continue
                 structural = structural and len(f[-2]) == len(w["stops"]) and f[-1].name == w["spread"]
                 for st, (off, col, sop) in zip(f[-2], w["stops"]):
-                    c = Color.fromstring(col)
-                    structural = structural and st.color.opaque() == c.opaque()
+                    c = css_color.parse(col)
+                    structural = structural and same_solid(st.color, col)
                     conj_scal.append(core.as_term(st.stopOffset) == core.as_term(off))
                     conj_scal.append(core.as_term(st.color.alpha) == z3.RealVal(Fraction(c.alpha * sop * w["opacity"])))
                 if f[0] == "linear":
